@@ -182,12 +182,10 @@ Definition path_add_idx (orig : string) (i : option nat) : string :=
   path_add orig ("[" ++ idx_text i ++ "]")%string.
 Definition idx_ref (i : option nat) : ref := RIdx (match i with Some n => n | None => 0 end).
 
-(* YAMLPath.__eq__: both sides re-parsed (unescaped, inferred separator) and
-   printed with the forward-slash separator; YAMLPathException propagates. *)
-Definition path_canon (orig : string) : outcome string :=
-  do sg <- parse Auto false orig; Ok (stringify (Some Slash) sg).
-Definition path_eq_real (a b : string) : outcome bool :=
-  do x <- path_canon a; do y <- path_canon b; Ok (String.eqb x y).
+(* YAMLPath.__eq__ (since the repair of C08's finding F23): both sides
+   re-parsed (escaped, inferred separator) and their segments compared as plain
+   values (PathPrinter.y_eq); YAMLPathException propagates. *)
+Definition path_eq_real (a b : string) : outcome bool := y_eq (y_new a) b.
 
 (* ------------------------------------------------------------------ *)
 (* DifferConfig *)
